@@ -1160,7 +1160,13 @@ def remove_duplicate_functions(source: str, preserve: Collection[str]) -> str:
             replacement = min(funcdefs, key=lambda node: node.lineno)
             preserved_nodes = {replacement}
 
+        replacement_arguments = [arg.arg for arg in core.walk(replacement.args, ast.arg)]
         for node in funcdefs - preserved_nodes:
+            if [arg.arg for arg in core.walk(node.args, ast.arg)] != replacement_arguments and any(
+                call.keywords for call in core.walk(root, ast.Call(func=ast.Name(id=node.name)))
+            ):
+                # Called with keyword arguments that the replacement names differently
+                continue
             delete.add(node)
             renamings[node.name] = replacement.name
 
